@@ -273,13 +273,32 @@ def run(R):
             R.check(okg, 'C02.R6', 'returned-iff-code!=Ok', site(cr, bb, i), 'guards: %r' % [(v, show(tm)[:60]) for s, v, tm in g])
         clos = [c for c in tonic.children(cr) if c.kind == 'closure']
         ne, nr = [], []
+        def ctor_direction(name, depth=0):
+            """which Direction the Streaming constructor `name` finally hands to Streaming::new"""
+            cands = [x for x in tonic.bodies if x.kind == 'fn' and x.path.endswith('codec::decode::Streaming::<T>::' + name)]
+            if not cands or depth > 4:
+                return None
+            for bb_, t_ in cands[0].calls(pat='codec::decode::Streaming'):
+                nm_ = t_.get('name') or ''
+                if nm_ == 'new':
+                    d_ = strip_refs(cands[0].origin(t_['args'][2]))
+                    return d_[1].get('variant') if d_[0] == 'agg' else None
+                if nm_.startswith('new'):
+                    return ctor_direction(nm_, depth + 1)
+            return None
         for c in clos:
             R.saw(c)
-            for bb, t in c.calls(name='new_empty'):
-                ne.append((c, bb, t))
-            for bb, t in c.calls(name='new_response'):
-                nr.append((c, bb, t))
-        R.check(len(ne) == 1 and len(nr) == 1, 'C02.R6', 'two-stream-kinds', site(cr), 'new_empty %d, new_response %d' % (len(ne), len(nr)))
+            for bb, t in c.calls(pat='codec::decode::Streaming'):
+                if not (t.get('name') or '').startswith('new'):
+                    continue
+                dirn = ctor_direction(t['name'])
+                if dirn == 'EmptyResponse':
+                    ne.append((c, bb, t))
+                elif dirn == 'Response':
+                    nr.append((c, bb, t))
+                else:
+                    R.bad('C02.R6', 'stream-kind-unrecognised:%s' % t['name'], site(c, bb), 'Streaming::%s builds a decoder with direction %r' % (t['name'], dirn), kind='UNRECOGNISED')
+        R.check(len(ne) == 1 and len(nr) == 1, 'C02.R6', 'two-stream-kinds', site(cr), 'decoders built with Direction::EmptyResponse: %d, with Direction::Response: %d' % (len(ne), len(nr)))
         for c, bb, t in nr:
             sc = c.origin(t['args'][2])
             R.check('status_code' in show(sc), 'C02.R6', 'new_response-gets-http-status', site(c, bb), 'status argument = %s' % show(sc))
